@@ -106,12 +106,12 @@ def run_case(case):
         PLAN["label_script_then"] = case["label_script"].get("then")
     for k, v in (case.get("task_plan") or {}).items():
         PLAN["task"][int(k)] = v
+    if case.get("start_method"):
+        # a user whose program selected another start method for worker processes (the one-worker pool is a real process too)
+        import multiprocessing
+        multiprocessing.set_start_method(case["start_method"], force=True)
     if case.get("mp"):
         os.environ["CUPCAKE_ENABLE_MULTIPROCESSING"] = "1"
-        if case.get("start_method"):
-            # a user whose program selected another start method for its worker processes
-            import multiprocessing
-            multiprocessing.set_start_method(case["start_method"], force=True)
     else:
         os.environ.pop("CUPCAKE_ENABLE_MULTIPROCESSING", None)
     np.random.seed(case["rng_seed"])
@@ -133,19 +133,42 @@ def run_case(case):
     if case.get("coverage"):
         cov = instrument.LineCoverage(os.path.join(os.environ.get("FAST_TICC_REPO", "/repo"), "src", "fast_ticc"))
         cov.start()
-    try:
-        with instrument.quiet():
+    def the_call():
+        import warnings
+        with instrument.quiet(), warnings.catch_warnings():
+            if case.get("warnings"):
+                warnings.simplefilter(case["warnings"])     # the caller's warning filters ("ignore", "always", "default", "once")
             if joint:
-                run.result = fast_ticc.ticc_joint_labels(arg, **kw)
-            else:
-                run.result = fast_ticc.ticc_labels(arg, **kw)
+                return fast_ticc.ticc_joint_labels(arg, **kw)
+            return fast_ticc.ticc_labels(arg, **kw)
+    PLAN["gmm_max_iter"] = case.get("gmm_max_iter")
+    try:
+        if case.get("in_thread"):
+            # the caller makes the call from a worker thread of its own program
+            import threading
+            box = {}
+
+            def body():
+                try:
+                    box["result"] = the_call()
+                except BaseException as e_:
+                    box["exc"] = e_
+            th = threading.Thread(target=body, name="caller-thread")
+            th.start()
+            th.join()
+            if "exc" in box:
+                raise box["exc"]
+            run.result = box.get("result")
+        else:
+            run.result = the_call()
     except (Exception, KeyboardInterrupt, SystemExit) as e:  # classified by the caller (the last two only ever come from injected faults)
         run.exc = e
         run.exc_tag, run.exc_expected = classify_exception(e)
     finally:
+        PLAN["gmm_max_iter"] = None
         if cov is not None:
             cov.stop()
-        if case.get("mp") and case.get("start_method"):
+        if case.get("start_method"):
             import multiprocessing
             multiprocessing.set_start_method("fork", force=True)
     run.cov = cov
@@ -446,18 +469,34 @@ def evaluate(run, want=None):
         tasks = run.tasks[r * K:(r + 1) * K]
         task_of_cluster = {}
         if len(run.tasks) >= (r + 1) * K and len(tasks) == K:
+            # two observations per task: the arguments as submitted to the pool (parent side; only meaningful when the callable IS
+            # the public optimiser entry point) and what the entry point actually received inside the worker (attached to the result)
             bound = []
+            recv = []
             for k, t in enumerate(tasks):
                 fn = t["func"]
-                if getattr(fn, "__name__", "") != "admm_optimize_theta" or "fast_ticc.admm" not in getattr(fn, "__module__", ""):
-                    I.v("C12", "round %d task %d was not submitted to the public optimiser entry point (%r)" % (r, k, fn))
-                    bound.append(None)
-                    continue
-                b = bind_task(t)
-                if b is None:
+                direct = getattr(fn, "__name__", "") == "admm_optimize_theta" and "fast_ticc.admm" in getattr(fn, "__module__", "")
+                b = bind_task(t) if direct else None
+                if direct and b is None:
                     I.v("C12", "round %d task %d: arguments do not bind to the optimiser's signature" % (r, k))
+                if not direct:
+                    I.c("tasks_submitted_through_another_callable")
                 bound.append(b)
-            free = [j for j, b in enumerate(bound) if b is not None]
+                tr_ = run.task_results.get(r * K + k)
+                rc_ = getattr(tr_, "_ticcmon", None) if tr_ is not None and not isinstance(tr_, BaseException) else None
+                got = (rc_ or {}).get("received")
+                if got is not None and len(got) == 1 and not got[0].get("unbound"):
+                    recv.append(got[0])
+                    I.c("optimiser_receipts_observed")
+                else:
+                    recv.append(None)
+                    if got is not None and len(got) != 1:
+                        I.c("tasks_with_%s_entry_point_calls" % ("no" if len(got) == 0 else "several"))
+            seen = [recv[j] if recv[j] is not None else bound[j] for j in range(K)]
+            free = [j for j, b in enumerate(seen) if b is not None]
+            all_seen = len(free) == K
+            if not all_seen:
+                I.c("rounds_with_unobserved_task_arguments")
             for k in range(K):
                 S_stat = st["out"]["arrays"][k]["empirical_covariance"]
                 if S_stat is None:
@@ -466,19 +505,25 @@ def evaluate(run, want=None):
                 cand = ([k] if k in free else []) + [j for j in free if j != k]
                 hit = None
                 for j in cand:
-                    if instrument._arr_equal(np.asarray(bound[j].get("empirical_covariance")), S_stat):
+                    if instrument._arr_equal(np.asarray(seen[j].get("empirical_covariance")), S_stat):
                         hit = j
                         break
                 if hit is None:
-                    I.v("C12", "round %d: no optimisation task received cluster %d's covariance" % (r, k))
+                    if all_seen:
+                        I.v("C12", "round %d: no optimisation task received cluster %d's covariance" % (r, k))
                     continue
                 free.remove(hit)
                 task_of_cluster[k] = r * K + hit
-                b = bound[hit]
-                if not (b.get("sparsity_weight") is run.lam or _same_value(b.get("sparsity_weight"), run.lam_before)):
-                    I.v("C12", "round %d, task for cluster %d: sparsity weight is not the caller's" % (r, k))
-                if b.get("window_size") != W or b.get("num_data_series") != N:
-                    I.v("C12", "round %d, task for cluster %d: window size / sensor count (%r,%r) != (%d,%d)" % (r, k, b.get("window_size"), b.get("num_data_series"), W, N))
+                for what, b in (("submitted with", bound[hit]), ("received by the optimiser in", recv[hit])):
+                    if b is None:
+                        continue
+                    lam_ok = _same_value(b.get("sparsity_weight"), run.lam_before) or (what == "submitted with" and b.get("sparsity_weight") is run.lam)
+                    if not lam_ok:
+                        I.v("C12", "round %d, sparsity weight %s the task for cluster %d is not the caller's (%s)" % (
+                            r, what, k, type(b.get("sparsity_weight")).__name__))
+                    if b.get("window_size") != W or b.get("num_data_series") != N:
+                        I.v("C12", "round %d, window size / sensor count %s the task for cluster %d: (%r,%r) != (%d,%d)" % (
+                            r, what, k, b.get("window_size"), b.get("num_data_series"), W, N))
                 I.c("task_arguments_checked")
             if any(j != k_ - r * K + r * K and False for k_, j in task_of_cluster.items()):
                 pass
